@@ -364,14 +364,15 @@ def in_header(s, addr):
 
 
 def target_of_header_ref(s):
-    """lower names of types referenced by required header members through <ref>"""
+    """lower names of types referenced through <ref> by header members that the validator inspects
+    (the required ones and the optional counters)"""
     roles = header_composites(s)
     out = set()
     for t in s['types']:
         r = roles.get(t['name'].lower())
         if r and t['k'] == 'composite':
             for x in t['elems']:
-                if x['k'] == 'ref' and x['name'] in required_members(r):
+                if x['k'] == 'ref' and x['name'] in required_members(r) + ['numGroups', 'numVarDataFields']:
                     out.add(x['type'].lower())
     return out
 
@@ -708,8 +709,8 @@ def m_arrays(s):
         if e['k'] != 'type' or e.get('presence') == 'constant':
             continue
         hdr = in_header(s, addr)
-        if hdr and (e['name'] in required_members(hdr)):
-            continue        # would (also) break a header rule: see m_headers
+        if hdr and (e['name'] in required_members(hdr) + ['numGroups', 'numVarDataFields']):
+            continue        # would (also) break a header rule: see m_headers / m_header_types
         if e['name'].lower() in target_of_header_ref(s) | used_as_encoding_type(s) and len(addr) == 2:
             continue
         for n in (0, 2, 7):
@@ -940,7 +941,8 @@ def m_duplicates(s, rng):
             yield Mut(c, 'duplicate', 'duplicateValidValue', path + [v['name']], 'validValue of %s enum' % kind, 'reject', '')
             c = copy.deepcopy(s)
             get(c, addr)['values'].append({'name': fresh(s, 'Same'), 'value': v['value']})
-            yield Mut(c, 'duplicate', None, path, 'validValue of %s enum' % kind, 'accept', 'two names for one value')
+            yield Mut(c, 'enum-value', 'duplicateEnumValue', path + [get(c, addr)['values'][-1]['name']],
+                      'validValue of %s enum' % kind, 'reject', 'two names for one value')
         if e['k'] == 'set' and e['choices']:
             ch = rng.choice(e['choices'])
             c = copy.deepcopy(s)
@@ -1412,6 +1414,313 @@ def m_use_order(s, rng):
 
 
 
+# ------------------------------------------------------------------ what the generated code needs from headers and enums
+
+INT_MEMBERS = {'message': ['schemaId', 'templateId', 'version', 'blockLength'], 'group': ['numInGroup', 'blockLength'],
+               'data': ['length']}
+COUNTERS = ['numGroups', 'numVarDataFields']
+
+
+def prim_max(p):
+    return INT_RANGE[p][1] if p in INT_RANGE else None
+
+
+def _member_type(s, t, name):
+    """(the dict holding the primitive type of member `name` of composite t, via) or (None, None)"""
+    for x in t['elems']:
+        if x['name'] == name:
+            if x['k'] == 'type':
+                return x, 'inline'
+            if x['k'] == 'ref':
+                tt = find(s['types'], x['type'])
+                return (tt, 'ref') if tt is not None and tt['k'] == 'type' else (None, None)
+            return None, None
+    return None, None
+
+
+def level_block_length(s, l):
+    _, end = field_minima(l.get('fields', []), s['types'])
+    return l['blockLength'] if l.get('blockLength') is not None else end
+
+
+def written_values(s):
+    """{(lower header name, member): [values the header fillers write]}"""
+    out = {}
+    mh = s.get('headerType', 'messageHeader').lower()
+    out.setdefault((mh, 'schemaId'), []).append(s['id'])
+    out.setdefault((mh, 'version'), []).append(s['version'])
+    for _, _, l, depth in walk_levels(s):
+        h = mh if depth == 0 else l['dim'].lower()
+        if depth == 0:
+            out.setdefault((h, 'templateId'), []).append(l['id'])
+        out.setdefault((h, 'blockLength'), []).append(level_block_length(s, l))
+        out.setdefault((h, 'numGroups'), []).append(len(l.get('groups', [])))
+        out.setdefault((h, 'numVarDataFields'), []).append(len(l.get('datas', [])))
+    return out
+
+
+def repair(s):
+    """generated schemas whose group block length does not fit the `blockLength` member of the chosen
+    dimension composite get a wide dimension composite instead (rule: header values are representable)"""
+    wide = None
+    for _, _, l, depth in walk_levels(s):
+        if depth == 0:
+            continue
+        t = find(s['types'], l['dim'])
+        tt, _ = _member_type(s, t, 'blockLength') if t is not None and t['k'] == 'composite' else (None, None)
+        if tt is None or prim_max(tt['prim']) is None:
+            continue
+        try:
+            bl = level_block_length(s, l)
+        except (KeyError, TypeError):
+            continue
+        if bl > prim_max(tt['prim']):
+            if wide is None:
+                wide = fresh(s, 'DimWide')
+                s['types'].append({'k': 'composite', 'name': wide, 'elems': [
+                    {'k': 'type', 'name': 'blockLength', 'prim': 'uint32'}, {'k': 'type', 'name': 'numInGroup', 'prim': 'uint16'}]})
+            l['dim'] = wide
+    return s
+
+
+def m_header_types(s, rng):
+    """members of level headers that the runtime uses as integers must have an integer primitive type;
+    the optional counters must be settable"""
+    roles = header_composites(s)
+    vals = written_values(s)
+    for ti, t in enumerate(s['types']):
+        role = roles.get(t['name'].lower())
+        if not role or t['k'] != 'composite':
+            continue
+        hp = ['types', t['name']]
+        present = [n for n in INT_MEMBERS[role] + (COUNTERS if role != 'data' else []) if any(x['name'] == n for x in t['elems'])]
+        for name in present:
+            tt, via = _member_type(s, t, name)
+            if tt is None:
+                continue
+            big = max(vals.get((t['name'].lower(), name), [0]))
+            pos = '%s header member %s (%s)' % (role, name, via)
+            for prim in ('float', 'double'):
+                c = copy.deepcopy(s)
+                ct, _ = _member_type(c, c['types'][ti], name)
+                ct['prim'] = prim
+                for k in ('min', 'max', 'null'):
+                    ct.pop(k, None)
+                yield Mut(c, 'header-type', 'headerElementNotInteger', hp + [name], pos, 'reject', prim)
+            for prim in ('char', 'int8', 'int16', 'int32', 'int64', 'uint64'):
+                c = copy.deepcopy(s)
+                ct, _ = _member_type(c, c['types'][ti], name)
+                ct['prim'] = prim
+                for k in ('min', 'max', 'null'):
+                    ct.pop(k, None)
+                if big <= INT_RANGE[prim][1]:
+                    yield Mut(c, 'header-type', None, hp + [name], pos, 'accept', 'integer type %s (largest value written %d)' % (prim, big))
+        if role == 'data':
+            continue
+        # optional counters of every kind, where the composite has none yet
+        for name in COUNTERS:
+            if any(x['name'] == name for x in t['elems']):
+                continue
+            pos = '%s header, added %s' % (role, name)
+            others = {k: [y for y in s['types'] if y['k'] == k and y is not t] for k in ('composite', 'enum', 'set')}
+            variants = [
+                ({'k': 'type', 'name': name, 'prim': 'uint8'}, None, 'plain uint8'),
+                ({'k': 'type', 'name': name, 'prim': 'int64', 'presence': 'optional'}, None, 'optional int64'),
+                ({'k': 'type', 'name': name, 'prim': 'float'}, 'headerElementNotInteger', 'float'),
+                ({'k': 'type', 'name': name, 'prim': 'uint8', 'length': 2}, 'headerElementArray', 'array'),
+                ({'k': 'type', 'name': name, 'prim': 'uint8', 'length': 0}, 'headerElementArray', 'empty array'),
+                ({'k': 'type', 'name': name, 'prim': 'uint8', 'presence': 'constant', 'const': '1'}, 'headerElementConstant', 'constant'),
+                ({'k': 'enum', 'name': name, 'enc': 'uint8', 'values': [{'name': 'A', 'value': 1}]}, 'headerElementKind', 'enum'),
+                ({'k': 'set', 'name': name, 'enc': 'uint8', 'choices': [{'name': 'a', 'index': 0}]}, 'headerElementKind', 'set'),
+                ({'k': 'composite', 'name': name, 'elems': [{'k': 'type', 'name': 'v', 'prim': 'uint8'}]}, 'headerElementKind', 'composite'),
+            ]
+            for k in ('composite', 'enum', 'set'):
+                if others[k]:
+                    variants.append(({'k': 'ref', 'name': name, 'type': others[k][0]['name']}, 'headerElementRefKind', 'ref to a %s' % k))
+            for el, cls, why in variants:
+                c = copy.deepcopy(s)
+                c['types'][ti]['elems'].append(el)
+                yield Mut(c, 'header-type', cls, hp + [name] if cls else hp, pos, 'reject' if cls else 'accept', why)
+            # the same name in another case is not the counter
+            c = copy.deepcopy(s)
+            c['types'][ti]['elems'].append({'k': 'type', 'name': name.lower(), 'prim': 'float'})
+            yield Mut(c, 'header-type', None, hp, pos, 'accept', 'float member named %s (not the counter)' % name.lower())
+
+
+def m_header_values(s, rng):
+    """schema id, version, template ids, block lengths and member counts must be representable in the header
+    member they are written into"""
+    mhn = s.get('headerType', 'messageHeader')
+    mh = find(s['types'], mhn)
+    if mh is None or mh['k'] != 'composite':
+        return
+    used_ids = {m['id'] for m in s['messages']}
+
+    def mprim(t, name):
+        tt, via = _member_type(s, t, name)
+        return (tt['prim'], via) if tt is not None else (None, None)
+
+    # schema id / version
+    for attr, member, cap in (('id', 'schemaId', 2 ** 32 - 1), ('version', 'version', 2 ** 64 - 1)):
+        prim, via = mprim(mh, member)
+        if prim is None or prim_max(prim) is None:
+            continue
+        mx = prim_max(prim)
+        if mx < cap:
+            c = copy.deepcopy(s)
+            c[attr] = mx + 1
+            yield Mut(c, 'header-value', 'headerValueOutOfRange', ['schema'], 'schema %s -> %s %s (%s)' % (attr, member, prim, via), 'reject',
+                      '%d' % (mx + 1))
+        c = copy.deepcopy(s)
+        c[attr] = min(mx, cap)
+        yield Mut(c, 'header-value', None, ['schema'], 'schema %s -> %s %s (%s)' % (attr, member, prim, via), 'accept', '%d' % min(mx, cap))
+    # shrink the member instead (value unchanged)
+    for attr, member in (('id', 'schemaId'), ('version', 'version')):
+        tt, via = _member_type(s, mh, member)
+        if tt is None:
+            continue
+        for prim in ('uint8', 'int8', 'char', 'uint16'):
+            ti = s['types'].index(mh)
+            c = copy.deepcopy(s)
+            ct, _ = _member_type(c, c['types'][ti], member)
+            ct['prim'] = prim
+            for k in ('min', 'max', 'null'):
+                ct.pop(k, None)
+            ok = s[attr] <= INT_RANGE[prim][1]
+            yield Mut(c, 'header-value', None if ok else 'headerValueOutOfRange', ['schema'],
+                      '%s member narrowed to %s (%s)' % (member, prim, via), 'accept' if ok else 'reject', '%s=%d' % (attr, s[attr]))
+    # template id of every message
+    prim, via = mprim(mh, 'templateId')
+    if prim is not None and prim_max(prim) is not None:
+        mx = prim_max(prim)
+        for mi, m in enumerate(s['messages']):
+            if mx < 2 ** 32 - 1 and (mx + 1) not in used_ids:
+                c = copy.deepcopy(s)
+                c['messages'][mi]['id'] = mx + 1
+                yield Mut(c, 'header-value', 'headerValueOutOfRange', ['messages', m['name']],
+                          'message id -> templateId %s (%s), message %d' % (prim, via, mi), 'reject', '%d' % (mx + 1))
+            b = min(mx, 2 ** 32 - 1)
+            if b not in used_ids:
+                c = copy.deepcopy(s)
+                c['messages'][mi]['id'] = b
+                yield Mut(c, 'header-value', None, ['messages', m['name']], 'message id -> templateId %s (%s), message %d' % (prim, via, mi),
+                          'accept', '%d' % b)
+    # block length of every level
+    for addr, path, l, depth in walk_levels(s):
+        h = mh if depth == 0 else find(s['types'], l['dim'])
+        if h is None or h['k'] != 'composite':
+            continue
+        prim, via = mprim(h, 'blockLength')
+        if prim is None or prim_max(prim) is None:
+            continue
+        mx = prim_max(prim)
+        _, end = field_minima(l.get('fields', []), s['types'])
+        pos = 'blockLength of %s -> %s %s (%s)' % (level_kind(depth), h['name'], prim, via)
+        if mx < 2 ** 64 - 1 and mx + 1 >= end:
+            c = copy.deepcopy(s)
+            get(c, addr)['blockLength'] = mx + 1
+            yield Mut(c, 'header-value', 'headerValueOutOfRange', path, pos, 'reject', 'explicit blockLength %d' % (mx + 1))
+        if mx >= end:
+            c = copy.deepcopy(s)
+            get(c, addr)['blockLength'] = mx
+            yield Mut(c, 'header-value', None, path, pos, 'accept', 'explicit blockLength %d' % mx)
+        # computed block length: one more array field pushes it over the limit
+        if mx <= 65535 and end <= mx:
+            need = mx + 1 - end
+            c = copy.deepcopy(s)
+            big = fresh(s, 'BigArr')
+            c['types'].append({'k': 'type', 'name': big, 'prim': 'uint8', 'length': need})
+            lv = get(c, addr)
+            lv.setdefault('fields', []).append({'name': fresh(s, 'bigf'), 'id': 940, 'type': big})
+            if lv.get('blockLength') is None:
+                yield Mut(c, 'header-value', 'headerValueOutOfRange', path, pos, 'reject', 'computed blockLength %d' % (mx + 1))
+            if need > 1:
+                c = copy.deepcopy(s)
+                c['types'].append({'k': 'type', 'name': big, 'prim': 'uint8', 'length': need - 1})
+                lv = get(c, addr)
+                lv.setdefault('fields', []).append({'name': fresh(s, 'bigf'), 'id': 940, 'type': big})
+                if lv.get('blockLength') is None:
+                    yield Mut(c, 'header-value', None, path, pos, 'accept', 'computed blockLength %d' % mx)
+    # member counts: a signed 8-bit counter holds 127
+    dims = _dim_composites(s)
+    vars_ = _var_composites(s)
+    for role, h in [('message', mh)] + [('group', d) for d in dims[:1]]:
+        ti = s['types'].index(h)
+        for name, kind in (('numGroups', 'groups'), ('numVarDataFields', 'datas')):
+            if any(x['name'] == name for x in h['elems']) or not dims or not vars_:
+                continue
+            for n, cls in ((128, 'headerValueOutOfRange'), (127, None)):
+                c = copy.deepcopy(s)
+                c['types'][ti]['elems'].append({'k': 'type', 'name': name, 'prim': 'int8'})
+                items = []
+                for k in range(n):
+                    if kind == 'groups':
+                        items.append({'name': 'cg%d' % k, 'id': k, 'dim': dims[-1]['name'], 'fields': [], 'groups': [], 'datas': []})
+                    else:
+                        items.append({'name': 'cd%d' % k, 'id': k, 'type': vars_[0]['name']})
+                if role == 'message':
+                    m = _mk_msg(s, fresh(s, 'Cnt'), _free_ids(s, 1)[0])
+                    m[kind] = items
+                    c['messages'].append(m)
+                    path = ['messages', m['name']]
+                else:
+                    g = _mk_group(s, fresh(s, 'cntg'), h['name'])
+                    g[kind] = items
+                    m = _mk_msg(s, fresh(s, 'Cnt'), _free_ids(s, 1)[0], groups=[g])
+                    c['messages'].append(m)
+                    path = ['messages', m['name'], g['name']]
+                # every other level using this header has few members: only the new level can overflow
+                yield Mut(c, 'header-value', cls, path, '%d %s under a %s header with int8 %s' % (n, kind, role, name),
+                          'reject' if cls else 'accept', '')
+
+
+def m_enum_values(s, rng):
+    """no two validValues of an enum stand for the same value"""
+    types = s['types']
+    for addr, path, e, kind in walk_elems(s):
+        if e['k'] != 'enum' or not e['values']:
+            continue
+        enc = e['enc']
+        prim = enc if enc in S.PRIM_SIZE else find(types, enc)['prim']
+        named = enc not in S.PRIM_SIZE
+        pos = '%s enum over %s%s' % (kind, prim, ' (named type)' if named else '')
+        v = rng.choice(e['values'])
+        nn = fresh(s, 'Dup')
+
+        def add(vals, cls, why, at=None):
+            c = copy.deepcopy(s)
+            ev = get(c, addr)['values']
+            for nm, val in vals:
+                ev.append({'name': nm, 'value': val})
+            return Mut(c, 'enum-value', cls, path + [at or vals[-1][0]], pos, 'reject' if cls else 'accept', why)
+
+        if prim == 'char':
+            yield add([(nn, str(v['value']))], 'duplicateEnumValue', 'same character')
+            free = [ch for ch in 'QRSTUVWxyz019' if all(str(x['value']) != ch for x in e['values'])]
+            yield add([(nn, free[0])], None, 'another character')
+            yield add([(nn, free[0].swapcase() if free[0].swapcase() != free[0] and
+                        all(str(x['value']) != free[0].swapcase() for x in e['values']) else free[1])], None, 'characters differing in case')
+        else:
+            val = int(v['value'])
+            lo, hi = INT_RANGE[prim]
+            yield add([(nn, str(val))], 'duplicateEnumValue', 'same text')
+            yield add([(nn, '0' + str(val) if val >= 0 else '-0' + str(-val))], 'duplicateEnumValue', 'leading zero')
+            yield add([(nn, '000' + str(val) if val >= 0 else '-000' + str(-val))], 'duplicateEnumValue', 'leading zeros')
+            used = {int(x['value']) for x in e['values']}
+            if 0 not in used:
+                yield add([(nn, '0'), (nn + 'b', '00')], 'duplicateEnumValue', '0 and 00')
+                if lo < 0:
+                    yield add([(nn, '0'), (nn + 'b', '-0')], 'duplicateEnumValue', '0 and -0')
+                    yield add([(nn, '-0'), (nn + 'b', '0')], 'duplicateEnumValue', '-0 and 0')
+            free = [x for x in (hi, hi - 1, 10, 11, 3) if x not in used]
+            yield add([(nn, str(free[0]))], None, 'another value')
+            if 10 not in used and 1 in used:
+                yield add([(nn, '10')], None, '10 next to 1')
+            if lo < 0 and -val not in used and val != 0 and lo <= -val:
+                yield add([(nn, str(-val))], None, 'the negated value')
+
+
+
 def m_parser(s):
     """parser-level rules that are expressible on the AST"""
     for addr, path, e, kind in walk_elems(s):
@@ -1426,8 +1735,15 @@ def m_parser(s):
         get(c, addr)['id'] = 2 ** 32 if depth == 0 else 2 ** 16
         yield Mut(c, 'attribute', 'attrNotNumeric', path, '%s id' % level_kind(depth), 'reject', 'id out of range')
         c = copy.deepcopy(s)
-        get(c, addr)['id'] = (2 ** 32 if depth == 0 else 2 ** 16) - 1
-        if depth > 0 or all(m['id'] != 2 ** 32 - 1 for m in s['messages']):
+        big = (2 ** 32 if depth == 0 else 2 ** 16) - 1
+        if depth == 0:
+            # (the id is also written into the header's templateId: stay inside that member)
+            mhc = find(s['types'], s.get('headerType', 'messageHeader'))
+            tt, _ = _member_type(s, mhc, 'templateId') if mhc is not None and mhc['k'] == 'composite' else (None, None)
+            if tt is not None and prim_max(tt['prim']) is not None:
+                big = min(big, prim_max(tt['prim']))
+        get(c, addr)['id'] = big
+        if depth > 0 or all(m['id'] != big for m in s['messages']):
             yield Mut(c, 'attribute', None, path, '%s id' % level_kind(depth), 'accept', 'largest id')
         for i, f in enumerate(l.get('fields', [])[:1]):
             c = copy.deepcopy(s)
@@ -1461,4 +1777,7 @@ def _mutants(s, rng):
     yield from m_constants(s, rng)
     yield from m_shared_headers(s, rng)
     yield from m_use_order(s, rng)
+    yield from m_header_types(s, rng)
+    yield from m_header_values(s, rng)
+    yield from m_enum_values(s, rng)
     yield from m_parser(s)
